@@ -217,7 +217,16 @@ func c09GenSet(r *Rng, id int) c09Set {
 			}
 		}
 		b.WriteString(`</section>`)
+		// variables assigned at the root scope of the page (they must land in the request's scope, not in shared data)
+		if r.Intn(2) == 0 {
+			b.WriteString(`<template :seq="counter + 1" :who="user.name"></template><p>#{{ seq }} {{ who }}</p><template v-for="it in items"><template :last="it.name"></template></template><p>{{ last }}</p>`)
+		}
 		name := fmt.Sprintf("page%d.vuego", p)
+		if r.Intn(3) == 0 { // no front-matter at all
+			s.Files[name] = b.String()
+			s.Pages = append(s.Pages, name)
+			continue
+		}
 		s.Files[name] = fm.String() + b.String()
 		s.Pages = append(s.Pages, name)
 	}
